@@ -438,8 +438,8 @@ func Execute(t *testing.T, sc Scenario, c *Case, recording bool, tapeSeed uint64
 					fmt.Sprintf("node %s died in goroutine %s: %s\n%s", cr.Node, cr.Goroutine, cr.Msg, cr.Stack)})
 			}
 			// conflicting accesses to one map that nothing orders: with real
-			// threads the run-time kills the process. A violation where the
-			// property says the process survives; counted everywhere else.
+			// threads the run-time kills the process, and with it whatever the
+			// property promises: a violation in every scenario.
 			for _, mr := range s.MapRaces() {
 				a, b := mr.First, mr.Second
 				if b < a {
@@ -451,14 +451,10 @@ func Execute(t *testing.T, sc Scenario, c *Case, recording bool, tapeSeed uint64
 					}
 					return "read"
 				}
-				if RaceIsCrash[c.Prop] {
-					v.Violations = append(v.Violations, Violation{c.Prop + "/crash/concurrent-map-access@" + a + "+" + b,
-						fmt.Sprintf("node %s: goroutine %s %s a map at %s and had executed nothing since when goroutine %s %s the same map at %s: no lock, channel or other synchronisation orders the two accesses; on real threads they can overlap and the run-time stops the process (fatal error: concurrent map %s)",
-							mr.Node, mr.G1, kind(mr.FirstWrite)+"s", mr.First, mr.G2, kind(mr.SecondWrite)+"s", mr.Second,
-							map[bool]string{true: "writes", false: "read and map write"}[mr.FirstWrite && mr.SecondWrite])})
-				} else {
-					env.Probe("unordered-map-accesses@" + a + "+" + b)
-				}
+				v.Violations = append(v.Violations, Violation{c.Prop + "/crash/concurrent-map-access@" + a + "+" + b,
+					fmt.Sprintf("node %s: goroutine %s %s a map at %s and had executed nothing since when goroutine %s %s the same map at %s: no lock, channel or other synchronisation orders the two accesses; on real threads they can overlap and the run-time stops the process (fatal error: concurrent map %s)",
+						mr.Node, mr.G1, kind(mr.FirstWrite)+"s", mr.First, mr.G2, kind(mr.SecondWrite)+"s", mr.Second,
+						map[bool]string{true: "writes", false: "read and map write"}[mr.FirstWrite && mr.SecondWrite])})
 			}
 			if res.StepCap {
 				v.Inconclusive = "step cap reached"
@@ -503,10 +499,6 @@ func Execute(t *testing.T, sc Scenario, c *Case, recording bool, tapeSeed uint64
 	}
 	return v
 }
-
-// RaceIsCrash names the properties whose statement says that the process does
-// not crash: there an unordered pair of conflicting map accesses is a violation.
-var RaceIsCrash = map[string]bool{"C12": true, "C17": true, "C19": true}
 
 // PostChecker is implemented by scenarios whose oracle has a part that runs
 // after the bubble has ended.
